@@ -1099,7 +1099,8 @@ impl<'de, T: RangeNumber> serde::de::Visitor<'de> for RangeSeed<T> {
             Ok(first)
         } else {
             ranges.push(first);
-            Ok(Range::Multiple(ranges))
+            // a list that holds `_` matches every count, like `1 | _` written as a string.
+            Ok(Range::Multiple(ranges).flatten())
         }
     }
 
